@@ -11,7 +11,7 @@ use chess::move_generator::MoveGenerator;
 use rayon::prelude::*;
 use serde_json::{json, Value};
 
-pub const RULE: &str = "for the tables compiled into this build: every square x EVERY subset of the relevant blocker mask (inner ray squares) for the rook (102,400 cases) and the bishop (5,248 cases), enumerated completely with the carry-rippler, blockers placed as enemy pieces of every kind (pawn, knight, bishop, rook, queen and at most one king, chosen per square), each also with variants adding enemy pieces on the ray-end edge squares and off the rays; queens on every square with generated occupancies; knights and kings on all 64 squares alone and with generated own/enemy neighbours. Observed through MoveGenerator::get_attack_targets on a board holding the single piece under test for its colour (both colours are used). Oracle: ray walking in (file, rank) coordinates up to and including the first occupied square; L-shaped / adjacent offsets computed in coordinates (no bit shifts). One-generator stress: 2^19 (quick) / 2^24 (thorough) generated boards are put to each of four generators that are never renewed, so two boards that the attack-map cache cannot tell apart would meet. Builds: N in-process runs of the build script's magic search (precompile::magic::find_magics::find_and_write_all_magics) are parsed and checked with the documented index formula offset + ((occ & mask) * magic >> shift): mask == inner rays, filling by ray walking is collision-free, segments do not overlap, declared table size matches; the thorough tier also forces a clean rebuild so the compiled tables come from a new draw. Non-trivial = at least one blocker on a ray or an edge/corner square; distinct = (piece, square, occupancy).";
+pub const RULE: &str = "for the tables compiled into this build: every square x EVERY subset of the relevant blocker mask (inner ray squares) for the rook (102,400 cases) and the bishop (5,248 cases), enumerated completely with the carry-rippler, blockers placed as enemy pieces of every kind (pawn, knight, bishop, rook, queen and at most one king, chosen per square), each also with variants adding enemy pieces on the ray-end edge squares and off the rays; queens on every square with generated occupancies; knights and kings on all 64 squares alone and with generated enemy neighbours, and crowds of 2..18 knights plus the king of one colour (half of them packed around one knight so that it has no free square): the colour's map must be the union of the on-board offsets without the squares its own pieces stand on. Observed through MoveGenerator::get_attack_targets on a board holding the single piece under test for its colour (both colours are used). Oracle: ray walking in (file, rank) coordinates up to and including the first occupied square; L-shaped / adjacent offsets computed in coordinates (no bit shifts). One-generator stress: 2^19 (quick) / 2^24 (thorough) generated boards are put to each of four generators that are never renewed, so two boards that the attack-map cache cannot tell apart would meet. Builds: N in-process runs of the build script's magic search (precompile::magic::find_magics::find_and_write_all_magics) are parsed and checked with the documented index formula offset + ((occ & mask) * magic >> shift): mask == inner rays, filling by ray walking is collision-free, segments do not overlap, declared table size matches; the thorough tier also forces a clean rebuild so the compiled tables come from a new draw. Non-trivial = at least one blocker on a ray or an edge/corner square; distinct = (piece, square, occupancy).";
 
 fn ray_attacks(sq: u8, occ: u64, dirs: &[(i8, i8)]) -> u64 {
     let mut out = 0u64;
@@ -168,9 +168,64 @@ fn replay_case(v: &Value) -> Result<TestResult, String> {
             check_slider(&mut g, Piece::Queen, "queen", &dirs, sq, occ, white, &mut st)
         }
         "knight" | "king" => check_leaper(&mut g, piece == "knight", sq, occ, 0, white, &mut st),
+        "knight-crowd" => check_leaper_crowd(&mut g, occ, sq, white, &mut st),
         _ => return Err("unknown piece".into()),
     };
     Ok(r.map_err(|(_, m)| Failure::new(m)))
+}
+
+/// Several knights (and a king) of one colour: the colour's map is the union of their on-board
+/// offsets without the squares its own pieces stand on - also when one of the knights has no
+/// free square at all.
+fn check_leaper_crowd(g: &mut MoveGenerator, knights: u64, king: u8, white: bool, st: &mut Stats) -> Result<(), (Case, String)> {
+    let own = if white { Color::White } else { Color::Black };
+    let mut b = Board::new();
+    let mut own_occ = knights;
+    let mut want = 0u64;
+    let mut smothered = false;
+    if king < 64 && knights >> king & 1 == 0 {
+        b.put(bb(king), Piece::King, own).unwrap();
+        own_occ |= 1u64 << king;
+        want |= offsets_attacks(king, &KING_DS);
+    }
+    for s in 0..64u8 {
+        if knights >> s & 1 == 1 {
+            b.put(bb(s), Piece::Knight, own).unwrap();
+            want |= offsets_attacks(s, &KNIGHT_DS);
+        }
+    }
+    for s in 0..64u8 {
+        if knights >> s & 1 == 1 && offsets_attacks(s, &KNIGHT_DS) & !own_occ == 0 {
+            smothered = true;
+        }
+    }
+    want &= !own_occ;
+    let got = g.get_attack_targets(&b, own).0;
+    st.eval();
+    if smothered {
+        st.label("a-knight-without-a-free-square");
+    }
+    st.nontrivial(knights.wrapping_mul(0x9E3779B97F4A7C15) ^ king as u64 ^ ((white as u64) << 7), || {
+        json!({"piece": "knight-crowd", "knights": format!("{:#018x}", knights), "king": if king < 64 { sq_name(king) } else { "-".into() }, "white": white})
+    });
+    if got != want {
+        return Err((
+            Case {
+                piece: "knight-crowd",
+                sq: king,
+                occ: knights,
+                white,
+            },
+            format!(
+                "knights on {:#018x} and king on {} of one colour: reported attacks {:#018x}, the union of the on-board offsets without own squares is {:#018x}",
+                knights,
+                if king < 64 { sq_name(king) } else { "-".into() },
+                got,
+                want
+            ),
+        ));
+    }
+    Ok(())
 }
 
 fn check_leaper(
@@ -276,6 +331,24 @@ fn run_compiled(env: &Env, agg: &mut Stats) -> Option<Violation> {
                         let enemy = xorshift(&mut rng) & xorshift(&mut rng);
                         check_leaper(&mut g, knight, sq, enemy, 0, i % 2 == 0, &mut st)?;
                     }
+                }
+                // crowds: a knight on this square with 1..9 more knights of its colour, half of
+                // the time packed around it (its own targets occupied), and the colour's king
+                for i in 0..300u32 {
+                    let around = offsets_attacks(sq, &KNIGHT_DS);
+                    let mut knights = 1u64 << sq;
+                    if i % 2 == 0 {
+                        knights |= around;
+                    }
+                    let extra = 1 + xorshift(&mut rng) % 9;
+                    for _ in 0..extra {
+                        knights |= 1u64 << (xorshift(&mut rng) % 64);
+                    }
+                    if i % 4 == 0 {
+                        knights &= !(1u64 << (xorshift(&mut rng) % 64)) | 1u64 << sq;
+                    }
+                    let king = (xorshift(&mut rng) % 80) as u8;
+                    check_leaper_crowd(&mut g, knights, king, i % 3 == 0, &mut st)?;
                 }
                 Ok(())
             };
